@@ -3273,25 +3273,37 @@ def drop_reraise_handlers(tree: ast.Module) -> int:
     is `try: B; E` / `finally: F` - or plainly `B; E` without a finally: the handlers change nothing about any exception,
     and `else` runs exactly when B completed."""
     count = 0
-    for node in ast.walk(tree):
-        for field in ('body', 'orelse', 'finalbody'):
-            body = getattr(node, field, None)
-            if not isinstance(body, list):
-                continue
-            i = 0
-            while i < len(body):
-                st = body[i]
-                if isinstance(st, ast.Try) and st.handlers and all(
-                        len(h.body) == 1 and isinstance(h.body[0], ast.Raise) and h.body[0].exc is None and h.body[0].cause is None
-                        for h in st.handlers):
-                    inner = list(st.body) + list(st.orelse)
-                    if st.finalbody:
-                        st.body, st.handlers, st.orelse = inner, [], []
-                    else:
-                        body[i:i + 1] = inner
-                        i += len(inner) - 1
-                    count += 1
-                i += 1
+    owners = [n for n in ast.walk(tree) if isinstance(n, (ast.FunctionDef, ast.AsyncFunctionDef))] + [tree]
+    done: Set[int] = set()
+    for owner in owners:          # innermost functions first is not needed: each Try is rewritten once, by whoever meets it first
+        for node in ast.walk(owner):
+            for field in ('body', 'orelse', 'finalbody'):
+                body = getattr(node, field, None)
+                if not isinstance(body, list):
+                    continue
+                i = 0
+                while i < len(body):
+                    st = body[i]
+                    if isinstance(st, ast.Try) and id(st) not in done and st.handlers and all(
+                            len(h.body) == 1 and isinstance(h.body[0], ast.Raise) and h.body[0].exc is None and h.body[0].cause is None
+                            for h in st.handlers):
+                        done.add(id(st))
+                        names = {h.name for h in st.handlers if h.name}
+                        if names:
+                            # (`except X as e: raise` bound a local: it is gone with the handler)
+                            fn = next((f for f in owners if f is not tree and any(z is st for z in ast.walk(f))
+                                       and not any(g is not f and isinstance(g, (ast.FunctionDef, ast.AsyncFunctionDef)) and any(z is st for z in ast.walk(g))
+                                                   for g in ast.walk(f) if g is not f)), None)
+                            if fn is not None:
+                                fn._removed_locals = set(getattr(fn, '_removed_locals', set())) | names  # type: ignore[attr-defined]
+                        inner = list(st.body) + list(st.orelse)
+                        if st.finalbody:
+                            st.body, st.handlers, st.orelse = inner, [], []
+                        else:
+                            body[i:i + 1] = inner
+                            i += len(inner) - 1
+                        count += 1
+                    i += 1
     return count
 
 
